@@ -14,7 +14,7 @@ CONSTANTS
   MustRRs = {TRUE, FALSE}
   Recvs = {TRUE, FALSE}
   HdrOrders = {"std", "viaLast"}
-  RportForms = {"none", "empty", "spoof", "noport"}
+  RportForms = {"none", "empty", "spoof", "spoof2", "spoof3", "noport"}
   Kinds = {"req"}
   RespVias = {"own"}
   Statuses = {200}
